@@ -2989,6 +2989,11 @@ void vm_execute_halt(vm * machine, bytecode * code)
     machine->running = VM_HALT;
 }
 
+#ifdef NEVER_VERIF
+/* verification hook: called before every instruction is dispatched */
+void (*nev_verif_step_hook)(vm * machine, bytecode * code) = NULL;
+#endif
+
 int vm_execute(vm * machine, program * prog, object * result)
 {
     bytecode * bc = NULL;
@@ -2998,6 +3003,12 @@ int vm_execute(vm * machine, program * prog, object * result)
     while (machine->running == VM_RUNNING)
     {
         bc = prog->module_value->code_arr + machine->ip;
+#ifdef NEVER_VERIF
+        if (nev_verif_step_hook != NULL)
+        {
+            nev_verif_step_hook(machine, bc);
+        }
+#endif
         machine->ip++;
         vm_execute_op[bc->type].execute(machine, bc);
 
